@@ -5,7 +5,7 @@ goroutines, the world's chain events, and Crash/Restart as ordinary actions:
   (a) exhaustive TLC: the repaired design (all invariants, NoLoss action property, CHECK_DEADLOCK =
       "every behaviour that can go no further has reached the reference outcome of its scenario"),
       the crash-free code-as-is model (fixes the reference outcome), and one run per named deviation
-      (F8, F9, F15, H3) which must EXHIBIT the finding on the model;
+      (F8, F9, FCC, H3) which must EXHIBIT the finding on the model;
   (b) crash plans: every single crash point of every scenario in both variants and crash point 0
       (enumerated by the executor from its reference run), double crashes (thorough), multi-crash
       plans derived from TLC-simulated behaviours of ArbitratorGen, seeded random plans;
@@ -21,7 +21,7 @@ goroutines, the world's chain events, and Crash/Restart as ordinary actions:
 
 Findings are attributed by the trace spec itself (variable `quirks`: which named deviation of the model
 the run went through); what ends badly without one is reported as an unclassified violation.
-C13_FIXED=F8,F9,F15 (or a VERIF_MUTATION diff whose name contains these tags / ALL) validates against
+C13_FIXED=F8,F9,FCC (or a VERIF_MUTATION diff whose name contains these tags / ALL) validates against
 the repaired model - used to check candidate repairs.
 """
 import collections
@@ -40,7 +40,8 @@ HARNESS = ["contractcourt/c13_test.go"]
 MC_WORKERS = int(os.environ.get("C13_MC_WORKERS", "4"))
 QUICK_SCEN = ["local", "remote", "localfar"]
 ALL_SCEN = ["local", "remote", "localfar", "contest", "claim", "success", "breach", "coop"]
-QUIRKS = ("F8", "F9", "F15")
+QUIRKS = ("F8", "F9", "FCC")
+CONST = {"F8": "F8Fixed", "F9": "F9Fixed", "FCC": "FccFixed"}
 
 WHAT = {
     "F8": "crash between a resolver's final Checkpoint(resolved=true) and ResolveContract: after the restart "
@@ -50,7 +51,7 @@ WHAT = {
     "F9": "the dust fail-back of a user/chain triggered close (stateStep StateDefault -> abandonForwards) reaches the "
           "switch before CommitState(StateBroadcastCommit); a crash in between (crash point 0) with all HTLCs far from "
           "expiry leaves an OPEN channel in StateDefault whose offered dust HTLC has already been failed upstream",
-    "F15": "a restart in StateContractClosed (crash between CommitState(StateContractClosed) and "
+    "FCC": "a restart in StateContractClosed (crash between CommitState(StateContractClosed) and "
            "CommitState(StateWaitingFullResolution)) re-executes the state with chainTrigger; checkCommitChainActions "
            "returns an EMPTY action map for chainTrigger unless some HTLC is within the broadcast delta at the closing "
            "height, so no resolver is created, no incoming dust HTLC is finalised, and the channel is marked fully "
@@ -63,7 +64,7 @@ WHAT = {
 KEYS = {
     "F8": "F8:crash-between-final-checkpoint-and-resolve:%s",
     "F9": "F9:failback-before-durable-close-decision:%s",
-    "F15": "F15:restart-in-contract-closed-drops-htlc-classification:%s",
+    "FCC": "FCC:restart-in-contract-closed-drops-htlc-classification:%s",
     "H3": "H3:reinsert-overwrites-checkpointed-resolver:%s",
 }
 
@@ -87,7 +88,7 @@ def fixed_set():
 def trace_consts(fx):
     return {"F8Fixed": "TRUE" if "F8" in fx else "FALSE",
             "F9Fixed": "TRUE" if "F9" in fx else "FALSE",
-            "F15Fixed": "TRUE" if "F15" in fx else "FALSE"}
+            "FccFixed": "TRUE" if "FCC" in fx else "FALSE"}
 
 
 def tla_set(xs):
@@ -96,22 +97,22 @@ def tla_set(xs):
 
 # ------------------------------------------------------------------------------------------------ (a)
 def model_checks(ck, thorough):
-    ncr = 5 if thorough else 2
+    ncr = 8 if thorough else 2
     scen = tla_set(ALL_SCEN)
     base = {"Scenarios": scen, "MaxCrashes": ncr, "EnvAtomic": "FALSE"}
     ck.model_check(SPEC, "ArbitratorMC", "ArbitratorMC.cfg", "repaired design, <= %d crashes, all scenarios" % ncr,
                    constants=base, workers=MC_WORKERS, timeout=1500, name="mc_repaired")
-    asis = dict(base, F8Fixed="FALSE", F9Fixed="FALSE", F15Fixed="FALSE", MaxCrashes=0)
+    asis = dict(base, F8Fixed="FALSE", F9Fixed="FALSE", FccFixed="FALSE", MaxCrashes=0)
     ck.model_check(SPEC, "ArbitratorMC", "ArbitratorMC.cfg", "code as is, crash-free: reference outcome reached",
                    constants=asis, workers=MC_WORKERS, timeout=900, name="mc_crashfree")
     shown = {}
     for q in QUIRKS:
         c = dict(base, MaxCrashes=2)
-        c[q + "Fixed"] = "FALSE"
+        c[CONST[q]] = "FALSE"
         r = ck.model_check(SPEC, "ArbitratorMC", "ArbitratorMC.cfg", "model with the code's %s behaviour" % q,
                            must_hold=False, constants=c, workers=MC_WORKERS, timeout=900, name="mc_" + q)
         if r.violation != "deadlock":
-            raise Inconclusive("spec/Arbitrator with %sFixed=FALSE no longer exhibits %s (got %s)" % (q, q, r.violation))
+            raise Inconclusive("spec/Arbitrator with %s=FALSE no longer exhibits %s (got %s)" % (CONST[q], q, r.violation))
         m = re.findall(r'(?m)^/\\ scen = "(\w+)"', r.cex or "")
         shown[q] = dict(result="stuck short of the reference outcome (TLC deadlock)", scenario=m[-1] if m else "?",
                         states=r.distinct)
@@ -152,7 +153,7 @@ def plans_from_behaviours(files):
 
 def generate_plans(ck, scen, thorough):
     plans = []
-    for nc, num in ((2, 120 if thorough else 40), (3, 120 if thorough else 0)):
+    for nc, num in ((2, 300 if thorough else 80), (3, 300 if thorough else 0)):
         if not num:
             continue
         files = ck.generate(SPEC, "ArbitratorGen", "ArbitratorGen.cfg", num, 120,
@@ -181,8 +182,8 @@ def classify(q, end):
         return "F9"
     if "F8" in q and end["st"] == "WaitingFullResolution" and any(u["r"] == 1 for u in un):
         return "F8"
-    if "F15" in q:
-        return "F15"
+    if "FCC" in q:
+        return "FCC"
     return None
 
 
@@ -320,12 +321,52 @@ def negative_controls(ck, recs, runs, verdicts, fx):
 
 
 # ------------------------------------------------------------------------------------------------ run
-def execute(ck, env, name):
+def lnd_panic(out):
+    """(top lnd frame, excerpt) of a panic in the code under test, or None."""
+    i = out.find("\npanic: ")
+    if i < 0:
+        i = out.find("fatal error: ")
+    if i < 0:
+        return None
+    txt = out[i:i + 6000]
+    frames = [f for f in re.findall(r"lightningnetwork/lnd/contractcourt\.(\(\*\w+\)\.\w+|\w+)\(", txt)
+              if "c13" not in f]
+    return (frames[0] if frames else "unknown"), txt[:3000]
+
+
+def execute(ck, env, name, race=False):
     e = {"TMPDIR": "/dev/shm" if os.path.isdir("/dev/shm") else "/tmp",
          "VERIF_C13_WORKERS": os.environ.get("C13_EXEC_WORKERS", "6")}
     e.update(env)
-    res = ck.go_test(PKG, "^TestVerifC13Arbitrator$", HARNESS, env=e, name=name, timeout=2400)
-    trace = os.path.join(res["dir"], "trace.ndjson")
+    for attempt in range(3):
+        res = ck.go_test(PKG, "^TestVerifC13Arbitrator$", HARNESS, env=e, name="%s%s" % (name, attempt or ""),
+                         timeout=2400, race=race)
+        trace = os.path.join(res["dir"], "trace.ndjson")
+        pan = lnd_panic(res["out"])
+        if pan and not race:
+            # the code under test crashed the process: that is behaviour of the real code, not of the harness
+            prog = os.path.join(res["dir"], "progress.log")
+            inflight = []
+            if os.path.exists(prog):
+                st = collections.Counter()
+                for ln in open(prog):
+                    k, _, p = ln.strip().partition(" ")
+                    st[p.strip()] += 1 if k == "start" else -1
+                inflight = [p for p, n in st.items() if n > 0]
+            log_ = os.path.join(res["dir"], "go.out")
+            ck.violation("C13:panic:%s" % pan[0],
+                         "the real code panicked during a crash run (plans in flight: %s); top lnd frame %s. A panic in "
+                         "(*ChannelArbitrator).launchResolvers is the data race FRACE: launchResolvers iterates the backing array "
+                         "of c.activeResolvers outside activeResolversLock while replaceResolver swaps an element (contest -> "
+                         "timeout/success resolver at the same block): torn interface read, nil-pointer dereference in the "
+                         "channelAttendant goroutine" % (", ".join(inflight[:8]), pan[0]),
+                         files={"go.out": log_, "progress.log": prog if os.path.exists(prog) else None}, text=pan[1])
+            continue
+        break
+    else:
+        raise Inconclusive("the code under test panicked in three consecutive executor runs")
+    if race:
+        return res
     if "HARNESS-ERROR" in res["out"]:
         m = re.findall(r"HARNESS-ERROR (.*)", res["out"])
         raise Inconclusive("executor could not complete %d run(s) (environment, not judged): %s" % (len(m), m[:3]))
@@ -334,13 +375,44 @@ def execute(ck, env, name):
     return trace
 
 
+def race_run(ck):
+    """Thorough tier: the swap scenarios under the race detector; races inside lnd's own code are reported."""
+    res = execute(ck, {"VERIF_C13_ENUM": "contest,success", "VERIF_C13_WORKERS": 2}, "race", race=True)
+    out = res["out"]
+    reports = out.split("WARNING: DATA RACE")[1:]
+    pairs = collections.Counter()
+    first = {}
+    for rep in reports:
+        rep = rep.split("==================")[0]
+        tops = []
+        for blk in re.split(r"\n\n", rep):
+            m = re.search(r"(?m)^(?:Write|Read|Previous write|Previous read) at .*\n\s+(\S+)\(\)", blk)
+            if m:
+                tops.append(m.group(1).split("/")[-1])
+        tops = [x for x in tops if "c13" not in x]
+        if len(tops) >= 2 and all("contractcourt." in x for x in tops[:2]):
+            key = " vs ".join(sorted(x.split(".")[-1] for x in tops[:2]))
+            pairs[key] += 1
+            first.setdefault(key, rep[:3500])
+    ck.cov["race_run"] = dict(reports=len(reports), lnd_pairs=dict(pairs))
+    for key, n in pairs.items():
+        fam = "FRACE:data-race-activeResolvers" if "launchResolvers" in key and "replaceResolver" in key else "C13:data-race"
+        ck.violation("%s:%s" % (fam, re.sub(r"[^\w.]+", "-", key).replace("-vs-", "-vs-")),
+                     "go test -race reports a data race inside contractcourt (%d report(s)): %s. launchResolvers copies only "
+                     "the slice header of c.activeResolvers under the lock and then reads the elements while replaceResolver "
+                     "(under the lock) overwrites one in place; with a block that both expires a contested HTLC and triggers "
+                     "the block beat, the torn interface read crashes the attendant goroutine (observed as SIGSEGV in "
+                     "launchResolvers in a non-race run)" % (n, key),
+                     files={"go.out": os.path.join(res["dir"], "go.out")}, text=first[key])
+
+
 def run(ck):
     thorough = ck.tier == "thorough"
     fx = fixed_set()
     if fx:
         ck.notes.append("validated against the model with repaired: %s" % ",".join(sorted(fx)))
     if getattr(ck, "replay", None):
-        plan = os.path.join(ck.replay, "plan.ndjson")
+        plan = os.path.abspath(os.path.join(ck.replay, "plan.ndjson"))
         if not os.path.exists(plan):
             raise Inconclusive("no plan.ndjson in %s" % ck.replay)
         sc = core.read_ndjson(plan)[0]["sc"]
@@ -352,19 +424,23 @@ def run(ck):
         return
 
     model_checks(ck, thorough)
-    scen = ALL_SCEN if thorough else QUICK_SCEN
+    # single crash points: every scenario in both tiers (a run costs ~0.1 s); model-generated multi-crash plans:
+    # the two force-close scenarios + the far-from-expiry one in quick, all in thorough
+    scen = list(ALL_SCEN)
     if os.environ.get("C13_SCEN"):      # development / mutation controls: restrict the executed scenarios
         scen = [x for x in os.environ["C13_SCEN"].split(",") if x in ALL_SCEN]
-    plans = generate_plans(ck, scen, thorough)
+    plans = generate_plans(ck, scen if thorough else [x for x in scen if x in QUICK_SCEN] or scen, thorough)
     pf = os.path.join(ck.out, "plans.ndjson")
     core.write_ndjson(pf, plans)
     env = {"VERIF_C13_ENUM": ",".join(scen), "VERIF_C13_PLANS": pf,
-           "VERIF_C13_RANDOM": 40 if thorough else 10,
+           "VERIF_C13_RANDOM": 150 if thorough else 30,
            "VERIF_C13_DOUBLE": ",".join(scen) if thorough else ""}
     trace = execute(ck, env, "exec")
     recs = core.read_ndjson(trace)
     runs, verdicts = judge(ck, recs, trace, fx, "all")
     found = report_findings(ck, recs, runs, verdicts, fx)
+    if thorough and not os.environ.get("C13_NORACE"):
+        race_run(ck)
     if verdicts or not ck.violations:
         negative_controls(ck, recs, runs, verdicts, fx)
 
